@@ -245,16 +245,36 @@ def _project(task, rec, idx):
 def _validate(ctx: Ctx, items, idx):
     """items: [(task, agent record)];  TLC decides every trace against TraceGroundSite.tla."""
     traces = [_project(t, r, idx) for t, r in items]
+    # binding self-test: two corrupted copies of one real trace (a step record removed = a missing
+    # wrapper; a logged displacement changed) ride along and must be rejected
+    n_real = len(traces)
+    src = next((j for j, t in enumerate(traces) if len(t["st"]) >= 2), None)
+    if src is not None:
+        import copy
+        a, b = copy.deepcopy(traces[src]), copy.deepcopy(traces[src])
+        a["st"].pop(0)
+        b["st"][-1]["dispMm"] = 1500
+        traces += [a, b]
     d = ctx.sub("trace_sites")
     (d / "traces.json").write_text(json.dumps(traces))
     res = tlc.run_tlc("TraceGroundSite", "TraceGroundSite.cfg", d, workers=min(4, ctx.cpus),
                       env={"TRACE_FILE": "traces.json"}, timeout=2400)
     cal.spec_fail(res, "TraceGroundSite")          # GroundSite's own invariants hold on every replayed state
-    ctx.add_tlc(res, f"trace validation of {len(traces)} real ground-agent traces against GroundSite.tla")
+    ctx.add_tlc(res, f"trace validation of {n_real} real ground-agent traces against GroundSite.tla")
     reached_end = {t[0] for t in res.tuples("ACCEPTED")}
     rejected: dict = {}
     for tid, _k, clause in res.tuples("REJECT"):
         rejected.setdefault(tid, set()).add(clause)
+    if src is not None:
+        if (src + 1) not in rejected:
+            bad = [j for j in (n_real + 1, n_real + 2) if j not in rejected]
+            if bad:
+                raise tlc.MachineryError(f"TraceGroundSite accepted a corrupted trace (binding self-test): {bad}")
+            ctx.extra["binding_mutants_rejected"] = {"step-record-removed": sorted(rejected[n_real + 1]),
+                                                     "displacement-field-corrupted": sorted(rejected[n_real + 2])}
+        rejected.pop(n_real + 1, None), rejected.pop(n_real + 2, None)
+        reached_end -= {n_real + 1, n_real + 2}
+        traces = traces[:n_real]
     accepted = reached_end - set(rejected)
     if reached_end != set(range(1, len(traces) + 1)):
         raise tlc.MachineryError(f"TraceGroundSite: {len(traces) - len(reached_end)} traces were not replayed to their end\n"
